@@ -190,7 +190,7 @@ def parseVarTable (s : String) : Option (List (String × Nat)) :=
 vars default|result default|vars ordered|result ordered|roundtrip` -/
 def handleC11 (fields : List String) : Verdict :=
   match fields with
-  | ["order", text, cls, ordering, ocls, varsD, resD, varsO, resO, roundtrip] =>
+  | ["order", text, cls, ordering, ocls, varsD, resD, varsO, resO, roundtrip, freeD, freeO] =>
     match decodeText text cls, parseVarTable varsD, parseVarTable varsO with
     | some (some cs), some vD, some vO =>
       -- the ordering as the tokenizer receives it
@@ -212,7 +212,16 @@ def handleC11 (fields : List String) : Verdict :=
           | some p => (match evalF modelIters (modelFuel p.formula) p.formula with
             | some b => showBDD b | none => "DIVERGE")
           | none => "ERR"
-        let modelOk := mVars == varsO && mRes == resO
+        let mFree := match mInfo with
+          | some p => String.intercalate "," (p.freeVars.map (fun v => hexOf v.1))
+          | none => "ERR"
+        let modelOk := mVars == varsO && mRes == resO && (freeO == "-" || mFree == freeO)
+        -- oracle 0: the same names are free (the columns of the table) under both orderings
+        let o0 : Option String :=
+          if freeD == "-" || freeO == "-" || freeD == "ERR" || freeO == "ERR" then none else
+          let a := sortS ((freeD.splitOn ",").filter (· ≠ ""))
+          let b := sortS ((freeO.splitOn ",").filter (· ≠ ""))
+          if a != b then some s!"the free variables (table columns) are {a} under the default order and {b} under the custom order" else none
         -- oracle 1: same function of the same named variables
         let o1 : Option String := match parseBDD resD, parseBDD resO with
           | some d, some r =>
@@ -242,13 +251,14 @@ def handleC11 (fields : List String) : Verdict :=
           else if !unlistedOk then some "a variable not listed in the ordering file is ordered before a listed one"
           else none
         let o3 := if roundtrip == "0" then some "exporting the order with -r and feeding it back with -o changed the table" else none
-        { modelOk, modelOut := s!"{mVars} | {mRes}", oracle := orElse o1 (orElse o2 o3),
+        { modelOk, modelOut := s!"{mVars} | {mRes} | {mFree}", oracle := orElse o0 (orElse o1 (orElse o2 o3)),
           nontrivial := resO != "T" && resO != "F" && resO != "ERR" && varsD != varsO }
     | _, _, _ => Verdict.badLine "unreadable order line"
   | _ => Verdict.badLine "unknown C11 line"
 where
   dedup' (xs : List String) : List String :=
     xs.foldl (fun acc x => if acc.contains x then acc else acc ++ [x]) []
+  sortS (xs : List String) : List String := (xs.toArray.qsort (· < ·)).toList
 
 end Driver
 end Rsbdd
